@@ -99,6 +99,18 @@ class SetV:
         self.enum = enum
 
 
+class SizedV:
+    """bytes-like ghost: only its length is known"""
+
+    __slots__ = ("n",)
+
+    def __init__(self, n):
+        self.n = n
+
+    def length(self, ip):
+        return mk(self.n, "int")
+
+
 class ExcV:
     def __init__(self, cls_name, args=()):
         self.cls_name = cls_name
